@@ -9,6 +9,9 @@ import mimetypes
 import os
 import shutil
 import tempfile
+
+# tmpfs keeps 64-bit timestamps (a file can carry an mtime datetime cannot represent) and is fast
+SCRATCH = '/dev/shm' if os.path.isdir('/dev/shm') and os.access('/dev/shm', os.W_OK) else None
 from urllib.parse import quote
 from wsgiref.handlers import format_date_time
 from email.utils import parsedate_to_datetime
@@ -51,7 +54,7 @@ class World(object):
 
     def __init__(self, cfg):
         self.cfg = cfg
-        self.base = tempfile.mkdtemp(prefix='simfs-')
+        self.base = tempfile.mkdtemp(prefix='simfs-', dir=SCRATCH)
         self.area = os.path.join(self.base, 'area')
         os.makedirs(self.area)
         self.model = {}     # root -> {rel: {'data': bytes, 'mtime': float, 'kind': str}}
@@ -70,7 +73,8 @@ class World(object):
                 self._w(p, data)
                 mt = EPOCH + f['mtime_off']
                 os.utime(p, (mt, mt))
-                self.model[rname][f['rel']] = {'data': data, 'mtime': os.path.getmtime(p), 'kind': f['kind']}
+                self.model[rname][f['rel']] = {'data': data, 'mtime': os.path.getmtime(p), 'kind': f['kind'],
+                                               'oddtime': bool(f.get('oddtime'))}
             # a sibling directory whose name merely starts with the root's name
             sib = rd + '_evil'
             os.makedirs(sib)
@@ -205,6 +209,10 @@ class C14(Check):
                 if rng.random() < (0.75 if r == rnames[0] else 0.5):
                     files.append({'rel': rel, 'kind': rng.choice(['text', 'text', 'bin', 'empty', 'big']),
                                   'mtime_off': -rng.choice([0, 1, 37, 3600, 86400 * 3]) - rng.choice([0, 0, 0.25, 0.5, 0.75])})
+                    if rng.random() < 0.08:
+                        # a time datetime cannot represent (year > 9999) or before the epoch: unusual but legal on disk
+                        files[-1]['mtime_off'] = rng.choice([2.6e11 - 1.7e9, 2.6e11 - 1.7e9, -1.8e9 - 1.7e9, -86400.0 * 365 * 400])
+                        files[-1]['oddtime'] = True
             if not files:
                 files.append({'rel': 'a.txt', 'kind': 'text', 'mtime_off': -100})
             roots[r] = files
@@ -475,7 +483,7 @@ class C14(Check):
             (ai, r, e), prob = best
             if prob is not None:
                 return res.violate(K + prob[0], ctx + ' -> ' + prob[1])
-            if not fired and cands and (ai, r) != (cands[0][0], cands[0][1]):
+            if not fired and cands and not any(c[2].get('oddtime') for c in cands) and (ai, r) != (cands[0][0], cands[0][1]):
                 return res.violate(K + 'search-order', ctx + ' -> served from %s, first root having it is %s' % (r, cands[0][1]))
             if not recovery:
                 last_modified[target] = ex.header('Last-Modified')
@@ -490,26 +498,30 @@ class C14(Check):
                 return res.violate(K + '304-unasked', ctx + ' -> 304 without a valid If-Modified-Since')
             if not allowed:
                 return res.violate(K + '304-for-missing', ctx)
-            if not fired and cands and not round(cands[0][2]['mtime']) <= ims_ts:
+            if not fired and cands and not cands[0][2].get('oddtime') and not round(cands[0][2]['mtime']) <= ims_ts:
                 return res.violate(K + '304-stale', ctx + ' -> 304 although the file (%r) is newer than the client copy (%r)'
                                    % (http_date(round(cands[0][2]['mtime'])), headers.get('If-Modified-Since')))
             res.probe('conditional-304')
         else:  # 403 / 404
-            if not fired and not recovery and allowed and clean_rel(rel) and op['method'] in ('GET', 'HEAD'):
+            odd = any(e.get('oddtime') for _, _, e in allowed)
+            if odd:
+                res.probe('odd-mtime-refused-not-500')
+            if not fired and not recovery and allowed and not odd and clean_rel(rel) and op['method'] in ('GET', 'HEAD'):
                 return res.violate(K + 'file-not-served', ctx + ' -> %s for an existing regular file inside a root' % ex.status)
-            if recovery and allowed and clean_rel(rel):
+            if recovery and allowed and not odd and clean_rel(rel):
                 return res.violate(K + 'no-recovery@%s' % self.site(fired), ctx + ' -> %s on the fault-free retry' % ex.status)
             # non-breaking: a fault confined to the first application must let the second one answer
             if fired and len(cfg['apps']) > 1 and clean_rel(rel):
                 hit_apps = set(w.app_index_of_path(p) for _, _, p in fired)
-                later = [c for c in cands if c[0] not in hit_apps and all(c[0] > h for h in hit_apps if h is not None)]
+                later = [c for c in cands if c[0] not in hit_apps and all(c[0] > h for h in hit_apps if h is not None)
+                         and not c[2].get('oddtime')]
                 if later and len(op['faults']) == 1:
                     return res.violate(K + 'breaking-error@%s' % self.site(fired),
                                        ctx + ' -> %s although a later static application has the file' % ex.status)
         # conditional: echoing the Last-Modified we were sent must give 304
         if ims_ts is not None and not fired and ex.code == 200 and cands:
             e0 = cands[0][2]
-            if round(e0['mtime']) <= ims_ts:
+            if not e0.get('oddtime') and round(e0['mtime']) <= ims_ts:
                 return res.violate(K + 'conditional-not-304', ctx + ' -> 200 although If-Modified-Since %r is not older than the file time %r'
                                    % (headers.get('If-Modified-Since'), http_date(round(e0['mtime']))))
 
@@ -521,7 +533,7 @@ class C14(Check):
         lm = ex.header('Last-Modified')
         if lm is None:
             return ('no-last-modified', 'no Last-Modified header')
-        if e['mtime'] is not None and lm != http_date(round(e['mtime'])):
+        if e['mtime'] is not None and not e.get('oddtime') and lm != http_date(round(e['mtime'])):
             return ('last-modified-wrong', '%r, file time %r' % (lm, http_date(round(e['mtime']))))
         ct = (ex.header('Content-Type') or '').partition(';')[0].strip()
         if ct != expected_type(norm, e):
